@@ -125,7 +125,7 @@ func (g *ProgGen) name() string {
 }
 
 var hostileNums = []string{"0", "1", "2", "3", "10", "0.5", "1.5", "7", "100", "0.0"}
-var hostileStrs = []string{"", "a", "0", "abc", "1.5", "Name", "k", "x y", "(", "^a", "é"}
+var hostileStrs = []string{"", "a", "0", "abc", "1.5", "Name", "k", "x y", "(", "^a", "é", "NaN", "Inf", "1e400", "0x1", "-1"}
 
 // Expr returns a random, untyped expression.
 func (g *ProgGen) Expr(depth int) Expr {
